@@ -481,11 +481,12 @@ func (u *Upgrade) releasingUpgrade(c chan<- resultMessage, upgradedRelease *rele
 		}
 	}
 
+	previousStatus := originalRelease.Info.Status
 	originalRelease.Info.Status = release.StatusSuperseded
 	if err := u.cfg.Releases.Update(originalRelease); err != nil {
 		// Do not mark the new revision deployed while the previous one could not be
 		// recorded as superseded: that would leave two deployed revisions.
-		originalRelease.Info.Status = release.StatusDeployed
+		originalRelease.Info.Status = previousStatus
 		u.reportToPerformUpgrade(c, upgradedRelease, results.Created, fmt.Errorf("failed to supersede previous release: %w", err))
 		return
 	}
